@@ -503,6 +503,15 @@ pub fn menu(seed: &Seed, with_unsealed: bool) -> Vec<Mutation> {
         }
         m.push(Mutation::XmlRaw { bytes: deep.into_bytes(), what: "XML replaced by 20000 nested open tags".into() });
         m.push(Mutation::XmlRaw { bytes: Vec::new(), what: "XML replaced by nothing (length 0)".into() });
+        // repetition bombs: 2 MiB of one unterminated / unbalanced token (anything that rescans the
+        // rest of the document per token needs time quadratic in the input size)
+        if with_unsealed {
+            for tok in ["<!--", "<![CDATA[", "<a ", "<a b='", "&amp;", "&#x41;", "<?p ", "<!", "]]>", "-->", "<a xmlns:a='u'>", "<a/>", "</a>", "\"", "'", "<"] {
+                let body = tok.repeat(2 * 1024 * 1024 / tok.len());
+                let doc = format!("<?xml version=\"1.0\"?><e57Root type=\"Structure\" xmlns=\"http://www.astm.org/COMMIT/E57/2010-e57-v1.0\">{body}");
+                m.push(Mutation::XmlRaw { bytes: doc.into_bytes(), what: format!("XML replaced by a root start tag followed by 2 MiB of {tok:?}") });
+            }
+        }
     }
     // H. size
     for n in 0..=48usize {
